@@ -106,7 +106,7 @@ PROPS = {
         "assumptions": [],
     },
     "C05": {
-        "modules": ["Cose.Props.C05"], "families": ["msg:C05"], "spec_ops": [],
+        "modules": ["Cose.Props.C05"], "families": ["msg:C05", "msg:C04"], "spec_ops": [],
         "n_quick": 300, "n_thorough": 40000,
         "rule": "per case: a produce with the protected alg given as int / int64 / key.Alg / other width / another registered alg / text / nil / out-of-range; a produce with nil headers (defaults recorded) and its consume; "
                 "a consume with a key of another algorithm sharing the key bytes where the family allows (HMAC 256/64 vs 256/256, AES-MAC, CCM, GCM); a message without protected alg",
